@@ -5,6 +5,7 @@ CONSTANTS NW = 2
  MaxTag = 2
  MaxObj = 1
  MaxQ = 1
+ NKeys = 2
  MaxL = 3
  Flags = {0, 2}
  YieldOpts = {2}
